@@ -46,6 +46,13 @@ def parseLabel (cur : Bytes) (s : Bytes) : Option Label :=
       else some ⟨pkg, name⟩
   | _ => none
 
+/-- `TargetLabel.CanBeShortened()`: the name equals the last element of the package path
+    (`strings.Split(pkg, "/")[last]`), so the label may be written `//pkg` -/
+def Label.canBeShortened (l : Label) : Bool := l.name == lastComp l.pkg
+
+/-- the shorthand spelling `//pkg` (what `$(bin //pkg)` / `$(output //pkg)` are looked up under) -/
+def Label.shortBytes (l : Label) : Bytes := slash2 ++ l.pkg
+
 structure Pattern where
   pfx  : Bytes     -- package prefix
   tp   : Bytes     -- target name filter ("" matches any)
